@@ -6,14 +6,14 @@ from . import Gen, Result
 ID = 'C20'
 TITLE = 'Idle connections are reaped after the timeout and active ones never are'
 RULE = ('one run = 1-3 connections (CONNECT tunnel, keep-alive forward HTTP, built-in web route, half-received '
-        'request, silent connection) on one real executor (threadless) or one real handler thread each '
+        'request, silent connection, chatty tunnel with a client write every 10-20 ms for longer than timeout + bound) on one real executor (threadless) or one real handler thread each '
         '(threaded), flags.timeout drawn from {1,2,3,5,10}; peers never close on their own; every connection '
         'follows a timed trace of client writes, upstream writes and client read pauses with output pending, the '
         'gaps drawn just below / just above the threshold on the virtual clock; the simulator records the time '
         'of every recv/send the proxy performs on the client socket and the moment it ends the connection; '
         'non-trivial = some gap lies within 0.1 s of the threshold or a read pause with pending output exceeds '
         'the timeout; distinct = distinct event-log digests')
-PROBES = ['tunnel', 'keepalive', 'web', 'half_request', 'silent', 'threaded', 'gap_just_below', 'gap_just_above',
+PROBES = ['tunnel', 'keepalive', 'web', 'half_request', 'silent', 'chatty', 'threaded', 'gap_just_below', 'gap_just_above',
           'pending_output_beyond_timeout', 'reaped', 'upstream_only_activity', 'multi_connection']
 COMPONENTS = {
     'real': ['proxy/http/handler.py (is_inactive, last_activity, threaded run loop)',
@@ -70,7 +70,9 @@ def run_one(tape: Any, cfg: Dict[str, Any], forbid: FrozenSet[str] = frozenset()
         nontrivial = False
         horizon = 0.0
         for k in range(nconn):
-            role = ['tunnel', 'keepalive', 'web', 'half_request', 'silent'][tape.weighted([4, 3, 2, 1, 1], 'role')]
+            role = ['tunnel', 'keepalive', 'web', 'half_request', 'silent', 'chatty'][tape.weighted([4, 3, 2, 1, 1, 1], 'role')]
+            if role == 'chatty' and not g.note('chatty_neighbour'):
+                role = 'tunnel'
             w.probe(role)
             ip = '10.0.1.%d' % (k + 1)
             cap_c = [4096, 1024, 64][tape.draw(3, 'capc')]      # a read pause moves 4 x cap_c bytes, possibly 16 at a time
@@ -79,7 +81,7 @@ def run_one(tape: Any, cfg: Dict[str, Any], forbid: FrozenSet[str] = frozenset()
                                  'ended': None, 'gaps': []}
             script: List[Any] = [('at', t), ('connect',)] if t else [('connect',)]
             oscript: List[Any] = []
-            if role == 'tunnel':
+            if role in ('tunnel', 'chatty'):
                 req = b'CONNECT %s:443 HTTP/1.1\r\nHost: %s:443\r\n\r\n' % (ip.encode(), ip.encode())
                 script += [('send', req, 'burst'), ('wait_rx', lambda p: b'\r\n\r\n' in p.rx)]
             elif role == 'keepalive':
@@ -91,8 +93,16 @@ def run_one(tape: Any, cfg: Dict[str, Any], forbid: FrozenSet[str] = frozenset()
             elif role == 'half_request':
                 req = b'GET http://%s/x HTTP/1.1\r\nHost: %s\r\nX-A: 1\r\n' % (ip.encode(), ip.encode())
                 script += [('send', req, 'burst')]
-            nev = tape.draw(cfg['max_events'] + 1, 'nev') if role != 'silent' else 0
+            nev = tape.draw(cfg['max_events'] + 1, 'nev') if role not in ('silent', 'chatty') else 0
             t += 0.05
+            if role == 'chatty':
+                # steady traffic at gaps below the select period for longer than timeout + bound: the worker's loop never
+                # sees an idle tick while this lasts, and idle neighbours must be reaped all the same
+                step = [0.01, 0.02][tape.draw(2, 'chatgap')]
+                for i in range(int((T + B + 1.0) / step)):
+                    script += [('at', round(t + i * step, 4)), ('send', b'x', 'burst')]
+                t += T + B + 1.0
+                nontrivial = nontrivial or nconn > 1
             nreq = 1
             classes = []
             for e in range(nev):
@@ -138,8 +148,8 @@ def run_one(tape: Any, cfg: Dict[str, Any], forbid: FrozenSet[str] = frozenset()
             script += [('wait_eof',), ('close',)]
             states.add(hash((role, threaded, T, tuple(classes))) & 0xffffffff)
             horizon = max(horizon, t)
-            if role in ('tunnel', 'keepalive', 'half_request'):
-                if role == 'tunnel':
+            if role in ('tunnel', 'chatty', 'keepalive', 'half_request'):
+                if role in ('tunnel', 'chatty'):
                     osc = (lambda s: (lambda i: list(s) + [('wait_eof',), ('close',)]))(oscript)
                     c['origin'] = Origin(w, ip, 443, osc, name='o%d' % k)
                 else:
@@ -196,7 +206,7 @@ def run_one(tape: Any, cfg: Dict[str, Any], forbid: FrozenSet[str] = frozenset()
                 return 0
             consumed = a.read_total      # what the proxy really read (bytes still queued, or discarded by close, do not count)
             sent = c['b'].tx_total
-            if c['role'] == 'tunnel':
+            if c['role'] in ('tunnel', 'chatty'):
                 ack = c.get('ack')
                 if ack is None:
                     i = bytes(c['client'].rx).find(b'\r\n\r\n')
